@@ -21,6 +21,10 @@
 EXTENDS LinQ
 
 \* ---------------------------------------------------------------- small helpers
+\* Strict binding: x is evaluated ONCE and F receives the value.  (TLC passes operator arguments and LET definitions
+\* lazily and does not reliably cache them when they are first used under a quantifier or LAMBDA: a chain of matrix
+\* products then costs exponential time.)
+Bind(x, F(_)) == CHOOSE r \in { F(y) : y \in {x} } : TRUE
 MFromCols(cols) == MFromFn(Len(cols), Len(cols[1]), LAMBDA c, r : cols[c][r])
 \* linear combination  sum_k coef[k] * column k of M   (k = 1 .. Len(coef))
 ColComb(M, coef) == [r \in 1..M.r |-> QSum([k \in 1..Len(coef) |-> QMul(coef[k], MAt(M, k, r))])]
@@ -198,5 +202,7 @@ RECURSIVE DProdFrom(_, _)
 DProdFrom(fs, i) == IF i = Len(fs) THEN fs[i] ELSE DMMul(fs[i], DProdFrom(fs, i + 1))
 DRecompose(s, q, t, k, p) == DProdFrom(DRecomposeFactors(s, q, t, k, p), 1)
 \* product of the absolute values of the factors: the magnitude of the terms summed in each entry
-DRecomposeAbs(s, q, t, k, p) == LET fs == DRecomposeFactors(s, q, t, k, p) IN DProdFrom([i \in 1..Len(fs) |-> DMAbs(fs[i])], 1)
+\* (the rotation factor is computed from the quaternion with cancellation: its entries are sums of terms of magnitude <= 2)
+DRotBound == DMFromFn(4, 4, LAMBDA c, r : IF c <= 3 /\ r <= 3 THEN DTwo ELSE IF c = r THEN DOne ELSE DZero)
+DRecomposeAbs(s, q, t, k, p) == LET fs == DRecomposeFactors(s, q, t, k, p) IN DProdFrom([i \in 1..Len(fs) |-> IF i = 3 THEN DRotBound ELSE DMAbs(fs[i])], 1)
 =============================================================================
